@@ -121,6 +121,9 @@ type Recorder struct {
 	// before the instruction showed it, and the instruction
 	elseAtBO [][]byte
 	opAtBO   byte
+	// Shown: a checksum of everything each callback was shown (the whole State and the data argument), taken before
+	// the recorder touches any of it: what a debugger is shown does not depend on what it did with what it was shown before
+	Shown []uint64
 }
 
 type heldState struct {
@@ -128,6 +131,43 @@ type heldState struct {
 	ev  string
 	n   int
 	sum uint64
+}
+
+// shownSum: every field of a State and the callback's data argument.
+func shownSum(s *interpreter.State, data []byte) uint64 {
+	h := stateSum(s)
+	mix := func(v uint64) { h ^= v; h *= 1099511628211 }
+	for _, st := range [][][]byte{s.ElseStack} {
+		mix(uint64(len(st)))
+		for _, it := range st {
+			mix(uint64(len(it)))
+			for _, b := range it {
+				mix(uint64(b))
+			}
+		}
+	}
+	for _, v := range s.CondStack {
+		mix(uint64(v) + 3)
+	}
+	mix(uint64(s.ScriptIdx))
+	mix(uint64(s.OpcodeIdx))
+	mix(uint64(s.NumOps))
+	mix(uint64(s.LastCodeSeparatorIdx))
+	mix(uint64(s.Flags))
+	for _, sc := range s.Scripts {
+		mix(uint64(len(sc)))
+		for _, op := range sc {
+			mix(uint64(op.Value()))
+			for _, b := range op.Data {
+				mix(uint64(b))
+			}
+		}
+	}
+	mix(uint64(len(data)) + 1)
+	for _, b := range data {
+		mix(uint64(b))
+	}
+	return h
 }
 
 func stateSum(s *interpreter.State) uint64 {
@@ -171,9 +211,14 @@ func (r *Recorder) flag(msg string) {
 	}
 }
 
-func (r *Recorder) ev(n string, s *interpreter.State) {
+func (r *Recorder) ev(n string, s *interpreter.State) { r.evData(n, s, nil) }
+
+func (r *Recorder) evData(n string, s *interpreter.State, data []byte) {
 	if r.Full {
 		r.Trace = append(r.Trace, n)
+		if s != nil && len(r.Shown) < 4000 {
+			r.Shown = append(r.Shown, shownSum(s, data))
+		}
 	}
 	if s == nil {
 		r.flag(n + ": nil State")
@@ -291,7 +336,7 @@ func (r *Recorder) scribbleData(bb []byte) {
 	}
 }
 func (r *Recorder) BeforeStackPush(s *interpreter.State, bb []byte) {
-	r.ev("bp", s)
+	r.evData("bp", s, bb)
 	r.scribbleData(bb)
 }
 func (r *Recorder) AfterStackPush(s *interpreter.State, bb []byte) {
@@ -301,11 +346,14 @@ func (r *Recorder) AfterStackPush(s *interpreter.State, bb []byte) {
 			r.flag(fmt.Sprintf("ap: pushed item %x is on top of neither stack in the State handed to AfterStackPush", bb))
 		}
 	}
-	r.ev("ap", s)
+	r.evData("ap", s, bb)
 	r.scribbleData(bb)
 }
-func (r *Recorder) BeforeStackPop(s *interpreter.State)           { r.ev("bq", s) }
-func (r *Recorder) AfterStackPop(s *interpreter.State, bb []byte) { r.ev("aq", s); r.scribbleData(bb) }
+func (r *Recorder) BeforeStackPop(s *interpreter.State) { r.ev("bq", s) }
+func (r *Recorder) AfterStackPop(s *interpreter.State, bb []byte) {
+	r.evData("aq", s, bb)
+	r.scribbleData(bb)
+}
 
 func u32(n int) []byte {
 	b := make([]byte, 4)
@@ -341,6 +389,7 @@ type Result struct {
 	Snaps      []Snapshot
 	Trace      []string
 	Incons     string
+	Shown      []uint64
 }
 
 // Built holds the caller-owned objects handed to the engine (C08 compares them before/after).
@@ -418,7 +467,7 @@ func RunBuilt(b *Built, rec *Recorder) Result {
 			tb += 4 + len(it)
 		}
 	}
-	return Result{Obs: obs, Err: msg, Steps: len(rec.Snaps), Hash: TraceHash(rec.Snaps), Snaps: rec.Snaps, Trace: rec.Trace, Incons: rec.Incons, TraceBytes: tb}
+	return Result{Obs: obs, Err: msg, Steps: len(rec.Snaps), Hash: TraceHash(rec.Snaps), Snaps: rec.Snaps, Trace: rec.Trace, Incons: rec.Incons, TraceBytes: tb, Shown: rec.Shown}
 }
 
 // Run executes p with a recording debugger.
